@@ -153,7 +153,9 @@ ArgsOK(k, id, j, s) ==
   LET x == GetSeq(doc, id)
       na == Len(x.args) IN
   /\ HasArgs(x)
-  /\ CASE k = "args_append" -> na < 4 /\ s \in {<<"{">>, <<"[">>} /\ j = 0
+  /\ CASE k = "args_append" -> na < 4 /\ s \in {<<"{">>, <<"[">>, <<"{", "{">>} /\ j = 0
+        [] k = "args_set" -> na > 0 /\ j \in 0..(na-1) /\ s \in {<<"{">>, <<"{", "{">>}                       \* args[j] = '{z}' / '{{z}}'
+        [] k = "args_delslice" -> na > 1 /\ j \in 0..1 /\ s \in {<<ToString(b)>> : b \in (j+1)..na}          \* del args[j:b]
         [] k = "args_insert" -> na < 4 /\ j \in 0..na /\ s = <<"{">>
         [] k \in {"args_pop", "args_remove", "args_del"} -> na > 0 /\ j \in 0..(na-1) /\ s = <<>>
         [] k = "args_reverse" -> na > 1 /\ j = 0 /\ s = <<>>
@@ -161,10 +163,14 @@ ArgsOK(k, id, j, s) ==
         [] k = "args_clear" -> na > 0 /\ j = 0 /\ s = <<>>
         [] k = "args_slice" -> na > 0 /\ j \in 0..1 /\ s \in {<<ToString(b)>> : b \in 1..na}
         [] OTHER -> FALSE
+(* the group made from the unparsed string '{z}' / '[z]' / '{{z}}' (the last: ONE brace group whose text is "{z}") *)
+NewGroup(s) == IF s = <<"{", "{">> THEN FreshGroup("{", <<"{", "z", "}">>, nextId) ELSE FreshGroup(s[1], <<"z">>, nextId)
 ArgsNew(k, id, j, s) ==
   LET x == GetSeq(doc, id)
       na == Len(x.args) IN
-  CASE k = "args_append" -> Append(x.args, FreshGroup(s[1], <<"z">>, nextId))
+  CASE k = "args_append" -> Append(x.args, NewGroup(s))
+    [] k = "args_set" -> [x.args EXCEPT ![j+1] = NewGroup(s)]
+    [] k = "args_delslice" -> LET b == CHOOSE b \in 1..na : <<ToString(b)>> = s IN SubSeq(x.args, 1, j) \o SubSeq(x.args, b+1, na)
     [] k = "args_insert" -> InsertAt(x.args, j, << FreshGroup("{", <<"z">>, nextId) >>)
     [] k \in {"args_pop", "args_del"} -> SubSeq(x.args, 1, j) \o SubSeq(x.args, j+2, na)
     [] k = "args_remove" ->      \* remove(args[j]): the first argument textually equal to args[j] goes
@@ -175,7 +181,7 @@ ArgsNew(k, id, j, s) ==
     [] k = "args_clear" -> <<>>
     [] OTHER -> LET b == CHOOSE b \in 1..na : <<ToString(b)>> = s IN SubSeq(x.args, j+1, b)                                  \* node.args = node.args[j:b]
 ArgsS(k, id, j, s) == Step(Op(k, id, 0-1, j, <<>>, s, NoMs), Update(id, [GetSeq(doc, id) EXCEPT !.args = ArgsNew(k, id, j, s)]),
-                           IF k \in {"args_append", "args_insert"} THEN 2 ELSE 0)
+                           IF k \in {"args_append", "args_insert", "args_set"} THEN 2 ELSE 0)
 
 Delete == "delete" \in OpKinds /\ \E id \in TargetIds : DeleteS(id)
 ReplaceWith == "replace_with" \in OpKinds /\ \E id \in TargetIds : \E ms \in Material : ReplaceWithS(id, ms)
@@ -193,8 +199,9 @@ RenameOK(id) == id \in AllTargetIds /\ Renamable(GetSeq(doc, id))
 Rename == "rename" \in OpKinds /\ \E id \in AllTargetIds : \E nm \in NewNames : RenameOK(id) /\ RenameS(id, nm)
 SetStringOK(id) == id \in NodeTargetIds /\ (StringCmd(GetSeq(doc, id)) \/ StringEnv(GetSeq(doc, id)))
 SetString == "set_string" \in OpKinds /\ \E id \in NodeTargetIds : \E s \in NewStrings : SetStringOK(id) /\ SetStringS(id, s)
-ArgsOps == {"args_swap", "args_del", "args_append", "args_pop", "args_reverse", "args_slice", "args_insert", "args_remove", "args_clear"} \cap OpKinds
-ArgParams == {<<"{">>, <<"[">>, <<>>} \cup {<<ToString(b)>> : b \in 1..4}
+ArgsOps == {"args_swap", "args_del", "args_append", "args_pop", "args_reverse", "args_slice", "args_insert", "args_remove", "args_clear",
+            "args_set", "args_delslice"} \cap OpKinds
+ArgParams == {<<"{">>, <<"[">>, <<"{", "{">>, <<>>} \cup {<<ToString(b)>> : b \in 1..4}
 ArgsEdit == \E k \in ArgsOps : \E id \in NodeTargetIds : \E j \in 0..4 : \E s \in ArgParams : ArgsOK(k, id, j, s) /\ ArgsS(k, id, j, s)
 
 Edit == /\ estage = "edit" /\ Len(hist) < MaxEdits
